@@ -69,6 +69,7 @@ fn main() {
         "registry" => registry::run(&args),
         "life" => life::run(&args),
         "worker_enqueue" => worker::run(&args),
+        "worker_books" => worker::books(&args),
         "routing" => routing::run(&args),
         "timers" => timers::run(&args),
         "select_listen" => select::listen(&args),
